@@ -212,6 +212,20 @@ func checkC13(c OriginCase, o *Obs) error {
 			return err
 		}
 	}
+	// absolute-form request target (what a server sees from a client that
+	// talks to it as to a proxy, and what httptest.NewRequest builds): the
+	// request URL then carries scheme and host of its own
+	directAbs := &http.Request{Method: "GET", URL: &url.URL{Scheme: "http", Host: c.Host, Path: "/chat", RawQuery: "room=1"}, Proto: "HTTP/1.1", ProtoMajor: 1, ProtoMinor: 1, Header: h.Clone(), Host: c.Host}
+	if err := judge("direct, absolute-form target", directAbs); err != nil {
+		return err
+	}
+	rawAbs := "GET http://" + c.Host + "/chat?room=1 HTTP/1.1\r\n" + strings.TrimPrefix(raw, "GET / HTTP/1.1\r\n")
+	if pr, err := http.ReadRequest(bufio.NewReader(strings.NewReader(rawAbs))); err == nil && pr.Host == c.Host && pr.URL.Host == c.Host && (!c.HasOrigin || (len(pr.Header["Origin"]) == 1 && pr.Header["Origin"][0] == c.Origin)) {
+		o.Class("via_net_http_absolute_form")
+		if err := judge("net/http, absolute-form target", pr); err != nil {
+			return err
+		}
+	}
 	o.Class("kind_" + c.Kind)
 	hp, _ := wsref.OriginHostPort(c.Origin)
 	if c.HasOrigin {
